@@ -409,7 +409,7 @@ func verifRunSchedule(out *verifOut, si, n, npollers int, rng *verifRng, sizes [
 			cl := &http.Client{Transport: tr}
 			cto := 120 * time.Second
 			if n > 100 {
-				cto = 12 * time.Second
+				cto = 120 * time.Second
 			}
 			cctx, cc := context.WithTimeout(ctx, cto)
 			defer cc()
